@@ -82,7 +82,7 @@ class C16(Prop):
                     {cur for g in program[1:] for n in g["nodes"] for _, cur in n.get("inRen", [])}
                 keep = [o for o in iouts if o in used_outside]
                 extra = [o for o in iouts if o not in used_outside]
-                if extra and not any(n["kind"] == "graph" and n["inner"] == 0 and n.get("outRen") for g in program[1:] for n in g["nodes"]):
+                if extra and not any(n["kind"] == "graph" and n["inner"] == 0 and (n.get("outRen") or n.get("inRen")) for g in program[1:] for n in g["nodes"]):
                     inner["selected"] = keep + extra[: rng.randint(0, len(extra) - 1)]
                     if inner["selected"]:
                         ops["nested_select"] = 1
